@@ -1213,6 +1213,19 @@ func (c *SpecCtx) evalCall(e *ECall) Val {
 			return Val{T: v.T, Typ: types.NewPointer(v.Typ)}
 		}
 		c.fail("addr(%s): the variable does not live in memory", id.Name)
+	case "called":
+		// called(label): the ghost flag of the function-level mustcall clause with that label — true iff a matching
+		// call has been executed on the path so far (for ordering: "F was called before this point")
+		id, isId := e.Args[0].(*EIdent)
+		if !isId || c.fr == nil || c.fr.fc == nil {
+			c.fail("called(label): label of a function-level mustcall clause")
+		}
+		for i, mc := range c.fr.fc.MustCalls {
+			if mc.Label == id.Name {
+				return Val{T: c.vc.memAtByName(c.st, fmt.Sprintf("calledfn.%d", i)), Typ: boolT}
+			}
+		}
+		c.fail("called(%s): no function-level mustcall clause with that label", id.Name)
 	case "newer":
 		// newer(x, k): the object x refers to (pointer, slice backing array, map) was allocated during the current
 		// iteration of loop k (after its header)
